@@ -24,6 +24,7 @@ from vf.sym import conc_int, untraced
 PROPERTY = "C15"
 FUNCTIONS = ["SectionOutput.add_content/write/clear/overwrite/_pop_stream_content_until_current_section", "Output.section/write", "Terminal.width (stubbed)"]
 PART = {}
+EXTRA_BOUNDS = 'also: smt_clear_step (E2): K <= 3 (thorough 5) content lines of lengths 0..2048, width 1..512, clear() and clear(n) for every n <= K from any state satisfying lines == sum(rows); sequence_indent: operations additionally from {text ending in a line break, overwrite with the text shown, clear(0), tagged line (registered + late style), suppressed write} under an indentation scope 0/2; afterwards the youngest section is switched to a plain formatter.'
 BOUNDS = {"quick": "E2: all 0 <= L <= 4096, 1 <= W <= 512; E1: 3 operations after creating 2-3 sections, each op = (section, kind in {write_line, write 2 lines, overwrite, clear(), clear(1), clear(2)}, text of length in {0, 1, W, W+1, 2W+1}); width 3 with 2 sections (3 ops), width 5 with 3 sections (2 ops), plain output (2 ops)",
           "thorough": "3 operations on 2 sections (widths 2, 5) and on 3 prefilled sections (widths 3, 8), plain output with 3 operations"}
 OUTSIDE = ["indentation scopes opened on the parent output while sections exist (only scopes on the section itself)", "clear(n) with n larger than the number of lines the section holds (skipped)", "tabs (the code counts a tab as 8 columns; the emulator has no tab stops)", "more than 3 sections, sequences longer than stated", "random length-40 sequences", "style tags inside section lines"]
